@@ -92,6 +92,13 @@ def _build(rnd, big, with_seq, on_chunk):
                 st = rnd.choice("+-")
                 cds = cds_blocks(blocks, st, 0, 3 * (n_tx // 3)) if coding else None
                 kw = {"is_primary_tx": True} if flagged == t else {}
+                if coding:
+                    # what the coding region says about itself (either, both or neither given)
+                    m = (k + t) % 4
+                    if m in (0, 1):
+                        kw["protein_id"] = "prot%d_%d" % (k, t)
+                    if m in (0, 2):
+                        kw["product"] = "product %d" % k
                 txs.append(mk_tx(blocks, st, cds, None, parent=parent, transcript_id="tx%d_%d" % (k, t), **kw))
             genes.append(GeneInterval(txs, gene_id="gid%d" % k, gene_symbol="sym%d" % (k % 3), locus_tag="lt%d" % k,
                                       parent_or_seq_chunk_parent=parent))
@@ -183,6 +190,11 @@ def _events(args):
             src_children = {c.guid: c.to_dict() for m in cur.iter_children() for c in m.iter_children()}
             r = rnd.random()
             allm = list(cur.iter_children())
+            # the answer of a relaxed range query holds members that overhang its bounds: identifier queries on such a
+            # collection (members named in any order) are asked more often than chance would
+            overhang = depth == 1 and len(allm) >= 2 and any(m.start < cur.start or m.end > cur.end for m in allm)
+            if overhang and rnd.random() < 0.7:
+                r = 0.6 + 0.4 * rnd.random()
             if r < 0.6:
                 if big:
                     kids = [c for m in allm for c in m.iter_children()]
@@ -212,7 +224,25 @@ def _events(args):
                     qe = rnd.randrange(qs, L + 2)
                 if rnd.random() < 0.1:
                     qs, qe = cur.start, cur.end
-                z = rnd.random()
+                targeted = False
+                if not big and with_seq and cur.variant_collections and rnd.random() < 0.5:
+                    # a window that holds a variant and a gene ONE of whose isoforms has no base in it (relaxed query): the
+                    # haplotype is applied to every member of the answer, also to the isoform that is not there
+                    cands = []
+                    for g in cur.genes:
+                        if len(g.transcripts) < 2:
+                            continue
+                        for v in [x for vc in cur.variant_collections for x in vc.variant_intervals]:
+                            for a in range(max(cur.start, v.start - 4), v.start + 1):
+                                for b in range(v.end, min(cur.end, v.end + 5) + 1):
+                                    inside = [any(s0 < b and a < e0 for s0, e0 in zip(t._genomic_starts, t._genomic_ends))
+                                              for t in g.transcripts]
+                                    if any(inside) and not all(inside) and a < b:
+                                        cands.append((a, b))
+                    if cands:
+                        qs, qe = rnd.choice(cands)
+                        targeted = True
+                z = rnd.random() if not targeted else 1.0
                 if z < 0.06:      # an explicit 0 is a coordinate, not "unset": outside a collection that starts later
                     qs = 0
                 elif z < 0.10:
@@ -220,11 +250,15 @@ def _events(args):
                 elif z < 0.14:    # one position outside the collection on either side
                     qs, qe = (cur.start - 1, cur.end) if rnd.random() < 0.5 else (cur.start, cur.end + 1)
                 flags = [rnd.random() < 0.3, rnd.random() < 0.5, rnd.random() < 0.5]
+                if targeted:
+                    flags = [False, False, flags[2]]
                 op, ar = "pos", [qs, qe] + flags
                 call = lambda: cur.query_by_position(qs, qe, coding_only=flags[0], completely_within=flags[1],  # noqa
                                                      expand_location_to_children=flags[2])
             elif r < 0.7:
                 pick = [m for m in allm if rnd.random() < 0.5]
+                if overhang:
+                    pick = sorted(allm, key=lambda m: -m.start) if rnd.random() < 0.6 else pick[::-1]
                 op, ar = "guids", [ids[m.guid] for m in pick]
                 call = lambda: cur.query_by_guids([m.guid for m in pick])  # noqa
             elif r < 0.9:
